@@ -99,3 +99,12 @@ Require Copia.Proofs.TieRemoteRun.
 Theorem C14_remote_run_is_translation_of_source : TieRemoteRun.remote_run_is_translation.
 Proof. exact TieRemoteRun.remote_run_is_translation_holds. Qed.
 Print Assumptions C14_remote_run_is_translation_of_source.
+
+(** The parser of the remote listing ([parse_listing]) is the translation of meta.rs `parse_remote_meta_output` as the
+    source has it now: records between NUL bytes, cut at the first two TABs (the path keeps its own TABs), size as u64 or
+    the record is skipped, mtime = the text before the first `.` as i64 or 0, one leading `./` removed, empty paths
+    skipped, later records replace earlier ones (Gen/ListingParseGen.v, Proofs/TieListing.v). *)
+Require Copia.Proofs.TieListing.
+Theorem C14_listing_parser_is_translation_of_source : TieListing.listing_parser_is_translation.
+Proof. exact TieListing.listing_parser_is_translation_holds. Qed.
+Print Assumptions C14_listing_parser_is_translation_of_source.
